@@ -17,6 +17,7 @@ namespace {
 struct Inst {
   std::vector<ll> u, v, s, d;
   bool balance = false;  // call balanceDemand() first
+  int history = 0;       // 0: solve, assign; 1: assign, solve; 2: both twice (answers must repeat); 3: balanceDemand twice
   std::string json() const {
     std::ostringstream o;
     o << "{\"source_pos\":" << jsonArr(u) << ",\"sink_pos\":" << jsonArr(v)
@@ -41,8 +42,21 @@ bool judge(const Inst &in, Report &R, bool brute, bool &nontrivial) {
     if (pb.sourceSupply() != in.s || pb.sourcePosition() != in.u ||
         pb.sinkPosition() != in.v)
       return R.fail("problem data changed");
-    sol = pb.solve();
-    asg = pb.assign();
+    if (in.history == 3 && in.balance) {
+      pb.balanceDemand();
+      if (pb.sinkDemand() != d) return R.fail("a second balanceDemand() changed the demands again");
+    }
+    if (in.history == 1) {
+      asg = pb.assign();
+      sol = pb.solve();
+    } else {
+      sol = pb.solve();
+      asg = pb.assign();
+    }
+    if (in.history == 2) {
+      if (pb.solve() != sol) return R.fail("a second solve() on the same object returned another plan");
+      if (pb.assign() != asg) return R.fail("a second assign() on the same object returned another assignment");
+    }
   } catch (const std::exception &e) {
     return R.fail(std::string("exception: ") + e.what());
   }
@@ -181,6 +195,9 @@ Inst decode(Tape &t, bool thorough) {
 
 bool prop(Tape &t, Report &R) {
   Inst in = decode(t, R.thorough());
+  in.history = t.weighted({3, 1, 1, 1});  // decided last
+  static const char *hn[] = {"calls:solve,assign", "calls:assign,solve", "calls:solve,assign,solve,assign", "calls:balanceDemand-twice"};
+  R.classify(hn[in.history]);
   bool z = false;
   for (ll x : in.s) z |= x == 0;
   R.classify(z ? "has-zero-supply" : "no-zero-supply");
